@@ -254,6 +254,14 @@ func c03Mutants(e *gen.Expr) []c03Mutant {
 					add(replacePath(e, pth, &gen.Expr{R: &c3, Kids: x.Kids[:len(x.Kids)-1]}), "not-enough-arguments")
 				}
 			}
+			for i, s := range x.R.In {
+				if s.T == gen.TFloat || s.T == gen.TI8 || s.T == gen.TI64 || s.T == gen.TU8 || s.T == gen.TF32 {
+					iv := &gen.Expr{R: gen.Var("I", gen.TInt)}
+					one := &gen.Expr{R: gen.Lit("1", gen.TInt, 1)}
+					add(replacePath(e, fmt.Sprintf("%s.%d", pth, i), &gen.Expr{R: gen.Bin("%", gen.TInt, gen.TInt, gen.TInt), Kids: []*gen.Expr{iv, one}}), "argument-type: int modulo for a "+s.T.String()+" parameter")
+					add(replacePath(e, fmt.Sprintf("%s.%d", pth, i), &gen.Expr{R: gen.Bin("+", gen.TInt, gen.TInt, gen.TInt), Kids: []*gen.Expr{iv, iv}}), "argument-type: int arithmetic of variables for a "+s.T.String()+" parameter")
+				}
+			}
 			anyParam := x.R.Arg == "Fast" || x.R.Arg == "Pick" || x.R.Arg == "Pack" || x.R.Arg == "Second" || x.R.Arg == "TakesAny" || x.R.Arg == "IsNil"
 			for i, s := range x.R.In {
 				if scalar(s.T) && !anyParam {
@@ -379,6 +387,44 @@ func c03(r *report.Run) {
 		}
 		return runs, nil
 	})
+	// environments given as typed maps, and a value environment compiled after a pointer environment
+	famOrder := int64(1) << 41
+	type fam struct {
+		env    interface{}
+		name   string
+		reject []string
+		accept []string
+	}
+	fams := []fam{
+		{map[string]int{"a": 1, "b": 2}, "map[string]int", []string{"zz", "zz + 1", "a + zz", "all(1..2, {zz > #})", `a + "s"`, "a.b"}, []string{"a", "a + b", "a > 1 ? a : b"}},
+		{map[string]string{"a": "x"}, "map[string]string", []string{"zz", `zz + "s"`, "a + 1", "len(zz)"}, []string{"a", `a + "s"`, "len(a)"}},
+		{map[string][]int{"a": {1}}, "map[string][]int", []string{"zz", "len(zz)", "zz[0]"}, []string{"a[0]", "len(a)"}},
+		{map[string]interface{}{"a": 1, "f": func(int) int { return 1 }}, "map[string]interface{}", []string{"zz", "zz + 1", "f(zz)", `f("s")`, "f()"}, []string{"a + 1", "f(a)"}},
+	}
+	for _, f := range fams {
+		for _, src := range f.reject {
+			famOrder++
+			atomic.AddInt64(&mutants, 1)
+			if _, err := c16Compile(src, expr.Env(f.env)); err == nil {
+				r.Report(report.Violation{Sub: "rejection", Kind: "ill-typed-accepted", Witness: "unknown name or mismatch in a " + f.name + " environment", Order: famOrder, Detail: map[string]interface{}{"source": src, "env": f.name}})
+			} else {
+				atomic.AddInt64(&rejected, 1)
+			}
+		}
+		for _, src := range f.accept {
+			famOrder++
+			if _, err := c16Compile(src, expr.Env(f.env)); err != nil {
+				r.Report(report.Violation{Sub: "soundness", Kind: "well-typed-rejected/typed-map", Witness: src + " in a " + f.name + " environment", Order: famOrder, Detail: map[string]interface{}{"error": err.Error()}})
+			}
+		}
+	}
+	for _, src := range []string{"PtrOnly()", "PtrOnly() + I", "T1() and PtrOnly() > 0"} {
+		famOrder++
+		c16Compile(src, expr.Env(&henv.Env{}))
+		if _, err := c16Compile(src, expr.Env(henv.Env{})); err == nil {
+			r.Report(report.Violation{Sub: "rejection", Kind: "ill-typed-accepted", Witness: "pointer-receiver method on a value environment after a pointer environment was compiled", Order: famOrder, Detail: map[string]interface{}{"source": src}})
+		}
+	}
 	r.Set("single_fault_mutants", mutants)
 	r.Set("mutant_compilations_rejected", rejected)
 	r.Set("distinct_nontrivial", mutants)
